@@ -279,14 +279,30 @@ theorem hadReady_adv (m : M) : Adv m.1 (hadReady m).1 := by adv_frame
 theorem reconcile_adv (s : St) (impl : List ImplDl) : Adv s (reconcile s impl).1 := by adv_frame
 theorem reconcileIdl_adv (s : St) (impl : List Nat) : Adv s (reconcileIdl s impl).1 := by adv_frame
 
-theorem handleMetadataData_adv (m : M) (k i len : Nat) (g : Bool) :
-    Adv m.1 (handleMetadataData m k i len g).1 := by
-  unfold handleMetadataData
+theorem hmdStart_adv (m : M) : Adv m.1 (hmdStart m).1 := by
+  unfold hmdStart
+  split
+  · simp only [onSt_fst]; exact stop_adv _ _
+  · adv_frame
+
+theorem hmdAdopt_adv (m : M) : Adv m.1 (hmdAdopt m).1 := by
+  unfold hmdAdopt
   dsimp only
   repeat' split
   all_goals first
-    | exact Adv.refl _
     | (simp only [onSt_fst]; exact stop_adv' _ _ _ rfl rfl rfl rfl rfl)
+    | (refine Adv.trans ?_ (hmdStart_adv _); adv_frame)
+
+theorem handleMetadataData_adv (m : M) (k i len : Nat) (g : Bool) :
+    Adv m.1 (handleMetadataData m k i len g).1 := by
+  rw [handleMetadataData_eq]
+  split
+  · exact Adv.refl _
+  unfold hmdBlock
+  dsimp only
+  repeat' split
+  all_goals first
+    | (refine Adv.trans ?_ (hmdAdopt_adv _); adv_frame)
     | adv_frame
 
 /-! ### Commands -/
